@@ -19,6 +19,9 @@ var raceFrame = regexp.MustCompile(`(github\.com/scrapli/scrapligo/\S+?)\(\)\n\s
 func RacePost(testName string) func(tier string, seed int64) ([]VRec, map[string]int, []string) {
 	return func(tier string, seed int64) ([]VRec, map[string]int, []string) {
 		bin := filepath.Join(verifDir(), "bin", "race.test")
+		if b := os.Getenv("VERIF_RACE_BIN"); b != "" {
+			bin = b // run.sh builds a separate binary when it checks a scratch copy of the repository
+		}
 		if _, err := os.Stat(bin); err != nil {
 			return nil, nil, []string{"race leg: " + bin + " not built"}
 		}
